@@ -81,3 +81,126 @@ adaptive_step = Contract(
 )
 
 CONTRACTS_C12 = [newton, const_step, adaptive_step]
+
+
+# ---------------------------------------------------------------------------------------------------------------
+# C11: dispatch of solvers.gauss_seidel, stopping rules of iterative_solve / twogrid
+
+from . import relaxation_cy as _rc
+from pyvc.values import VOpaque as _VOpaque, norm_fn as _norm
+from pyvc import symexec as _sx
+
+_CSR = lambda: Obj(shape=Tup(Int(0, 2**31 - 2), Int(0, 2**31 - 2)), indptr=Arr('int', 1, elem_range=_rc.I32),
+                   indices=Arr('int', 1, elem_range=_rc.I32), data=Arr('real', 1))
+
+
+def _csr_req(s):
+    A = s.A
+    N = A.shape[0]
+    rp, ci, da = A.indptr, A.indices, A.data
+    return [A.shape[1] == N, s.x.len == N, s.b.len == N, rp.len == N + 1, ci.len == da.len,
+            ForAll('k', lambda k: Implies(And(0 <= k, k <= N), And(0 <= rp[k], rp[k] <= ci.len))),
+            ForAll('k', lambda k: Implies(And(0 <= k, k < N), rp[k] <= rp[k + 1])),
+            ForAll('q', lambda q: Implies(And(0 <= q, q < ci.len), And(0 <= ci[q], ci[q] < N)))]
+
+
+def _gs_dispatch(sweep, indexed):
+    params = {'A': _CSR(), 'x': Arr('real', 1, numpy=True), 'b': Arr('real', 1, numpy=True), 'iterations': Int(0),
+              'indices': Arr('int', 1, elem_range=_rc.I32) if indexed else Const(None), 'sweep': Const(sweep)}
+    req = _csr_req
+    if indexed:
+        req = lambda s: _csr_req(s) + [s.indices.len < 2**31 - 1,
+                                       ForAll('k', lambda k: Implies(And(0 <= k, k < s.indices.len), And(0 <= s.indices[k], s.indices[k] < s.x.len)))]
+    return Contract(
+        F, 'gauss_seidel', name='solvers:gauss_seidel[%s%s,csr]' % (sweep, ',indexed' if indexed else ''),
+        params=params, requires=req, modifies=('x',),
+        callees={'issparse': lambda ex, st, call, *a, **k: True, 'isspmatrix_csr': lambda ex, st, call, *a, **k: True,
+                 'asanyarray': lambda ex, st, call, a, **k: a,
+                 'gauss_seidel': _rc.gauss_seidel, 'gauss_seidel_indexed': _rc.gauss_seidel_indexed},
+        loops={(1 if indexed else 2): LoopSpec(r'for i in range\(iterations\)', inv=lambda s: [('len', s.x.len == s.old.x.len)])},
+        checks=[(r'relaxation_cy\.gauss_seidel_indexed\(', lambda s: [('direction', s.reverse == (sweep == 'backward'))])] if indexed else
+               [(r'relaxation_cy\.gauss_seidel\(A\.indptr', lambda s: [('row-range', And(s.start == (0 if sweep == 'forward' else s.N - 1),
+                                                                                        s.end == (s.N if sweep == 'forward' else -1),
+                                                                                        s.step == (1 if sweep == 'forward' else -1), s.N == s.x.len))])],
+        ensures=lambda s: [('len', s.x.len == s.old.x.len)],
+        options={'timeout_ms': 60000},
+        notes=['the call-site obligations `pre:` show that the unchecked kernel is entered with a valid row range / index list'],
+    )
+
+
+def gs_symmetric_obligations():
+    """sweep='symmetric': forward then backward, `iterations` times (P(fin) iterations in 0..3): the recursive calls are recorded"""
+    from pyvc import frontend
+    from pyvc.symexec import Executor, Obligation
+    obs = []
+    for n in (0, 1, 2, 3):
+        calls = []
+
+        def rec(ex, st, call, *a, **k):
+            calls.append((k.get('sweep'), k.get('iterations'), k.get('indices') is None))
+            return None
+        c = Contract(F, 'gauss_seidel', name='solvers:gauss_seidel[symmetric]',
+                     params={'A': Opaque(), 'x': Opaque(), 'b': Opaque(), 'iterations': Const(n), 'indices': Const(None), 'sweep': Const('symmetric')},
+                     callees={'gauss_seidel': rec})
+        fn = frontend.load(F).find('gauss_seidel')
+        ex = Executor(fn, c)
+        obs += ex.run()
+        ok = calls == [('forward', 1, True), ('backward', 1, True)] * n
+        o = Obligation('solvers:gauss_seidel[symmetric]:post:forward-then-backward[iterations=%d]' % n, 'post', fn.lineno, [], None,
+                       'symmetric sweep = (forward sweep; backward sweep) x iterations', src='def gauss_seidel')
+        o.status, o.backend, o.time = ('proved' if ok else 'refuted'), 'symbolic-execution (recorded calls)', 0.0
+        if not ok:
+            o.goal = 'recorded recursive calls: %r' % (calls,)
+        obs.append(o)
+    return obs, None
+
+
+def _iter_req(s):
+    return [s.maxiter >= 1]
+
+
+def _iter_post(s):
+    r = s.result
+    resid = _norm(vop('getitem', vop('Sub', s.f, vop('MatMult', s.A, r[0])), s.active_dofs))
+    fin = r[1] is not _sx.INF
+    if fin:
+        return [('returns-count-only-when-converged', And(s.res / s.res0 < s.tol, s.res == resid, r[1] == s.iterations, s.iterations >= 1))]
+    return [('inf-only-at-the-iteration-limit', s.iterations >= s.maxiter)]
+
+
+def _iterative(x0_given, active_given):
+    return Contract(
+        F, 'iterative_solve', name='solvers:iterative_solve[x0=%s,active=%s]' % ('given' if x0_given else 'None', 'given' if active_given else 'None'),
+        params={'step': Fun(1), 'A': Vec(), 'f': Vec(), 'x0': Vec() if x0_given else Const(None),
+                'active_dofs': Vec() if active_given else Const(None), 'tol': Real(), 'maxiter': Int()},
+        requires=_iter_req,
+        loops={0: LoopSpec(r'while True', inv=lambda s: [('count', s.iterations >= 0)])},
+        ensures=_iter_post,
+        options={'float_div_raises': False, 'no_return_ok': False},
+        notes=['exits: (x, k) only on the path where res/res0 < tol was evaluated true for that x; (x, inf) only with iterations >= maxiter'],
+    )
+
+
+def _smoother(ex, st, call, *a, **k):
+    st.env['u'] = fresh_vec('u')      # the smoother updates u in place
+    return None
+
+
+def _twogrid(u0_kind):
+    u0 = {'none': Const(None), 'array': Arr('real', 1, numpy=True)}[u0_kind]
+    return Contract(
+        F, 'twogrid', name='solvers:twogrid[u0=%s]' % u0_kind,
+        params={'A': Vec(), 'f': Vec(), 'P': Vec(), 'smoother': Opaque(), 'u0': u0, 'tol': Real(), 'smooth_steps': Int(0), 'maxiter': Int()},
+        requires=lambda s: [s.u0.len >= 2] if u0_kind == 'array' else [],
+        callees={'smoother': _smoother},
+        loops={0: LoopSpec(r'while True', inv=lambda s: [('count', s.numiter >= 0)]),
+               1: LoopSpec(r'for _ in range\(smooth_steps\)', inv=lambda s: [])},
+        ensures=lambda s: [('stops-only-on-a-listed-condition', Or(s.res < s.tol * s.res0, s.res > 20 * s.res0, s.numiter > s.maxiter))],
+        options={'float_div_raises': False},
+        notes=['accepts any starting vector: an ndarray u0 with more than one entry must not raise (bool(ndarray) is ambiguous)'],
+    )
+
+
+CONTRACTS_C11 = [_gs_dispatch('forward', False), _gs_dispatch('backward', False), _gs_dispatch('forward', True), _gs_dispatch('backward', True),
+                 _iterative(False, False), _iterative(True, True), _iterative(True, False), _twogrid('none'), _twogrid('array')]
+CONTRACTS = CONTRACTS_C12 + CONTRACTS_C11
